@@ -26,6 +26,7 @@ import (
 	"math/big"
 	"os"
 	"path/filepath"
+	"strconv"
 	"strings"
 )
 
@@ -280,13 +281,38 @@ func main() {
 	mw, ok2 := numConst(alertF, "maxWeight")
 	pc := funcDecl(alertF, "percentChange", "*alertState")
 	shapeOK := false
-	if pc != nil {
-		// the two statements the constants enter through
+	flapOffset := -1
+	if pc != nil && len(pc.Body.List) == 7 {
+		// the whole function, statement by statement; the only free part is the start offset of the comparisons
 		var got []string
 		for _, s := range pc.Body.List {
 			got = append(got, src(s))
 		}
-		shapeOK = len(got) >= 4 && got[2] == "weight := (maxWeight / weightDiff)" && got[3] == "step := (maxWeight - weight) / float64(l-1)"
+		fs, isFor := pc.Body.List[4].(*ast.ForStmt)
+		shapeOK = got[0] == "l := len(a.history)" && got[1] == "changes := 0.0" &&
+			got[2] == "weight := (maxWeight / weightDiff)" && got[3] == "step := (maxWeight - weight) / float64(l-1)" &&
+			got[5] == "p := changes / float64(l-1)" && got[6] == "return p" && isFor
+		if shapeOK {
+			shapeOK = src(fs.Init) == "i := 0" && src(fs.Cond) == "i < l-1" && src(fs.Post) == "i++" && len(fs.Body.List) == 5 &&
+				src(fs.Body.List[1]) == "p := c - 1" && src(fs.Body.List[2]) == "if p < 0 { p = l - 1 }" &&
+				src(fs.Body.List[3]) == "if a.history[c] != a.history[p] { changes += weight }" && src(fs.Body.List[4]) == "weight += step"
+		}
+		if shapeOK {
+			switch c0 := src(fs.Body.List[0]); {
+			case c0 == "c := (i + a.idx) % l":
+				flapOffset = 0
+			case strings.HasPrefix(c0, "c := (i + a.idx + ") && strings.HasSuffix(c0, ") % l"):
+				if v, err := strconv.Atoi(c0[len("c := (i + a.idx + ") : len(c0)-len(") % l")]); err == nil && v >= 0 {
+					flapOffset = v
+				}
+			}
+		}
+	}
+	if shapeOK && flapOffset >= 0 {
+		w("/-- percentChange: `for i := 0; i < l-1; i++ { c := (i + a.idx + <this>) mod l; p := c-1 (wrapping); if a.history[c] != a.history[p] { changes += weight }; weight += step }` -/")
+		w("def flapStartOffset : Option Nat := some %d", flapOffset)
+	} else {
+		w("def flapStartOffset : Option Nat := none")
 	}
 	if ok1 && ok2 && shapeOK {
 		rwd, a := new(big.Rat).SetString(wd)
